@@ -39,11 +39,30 @@ def values(rng, kind, n=None):
     return [rng.choice(WORDS) for _ in range(n)]
 
 
-def list_attrs(rng, i, numeric_ids, with_id=None):
+# numbers whose numeric and text orders disagree for many pairs (9/10, 2/10, 99/100, 100/20, ...)
+CROSSING = [1, 2, 3, 9, 10, 11, 19, 20, 21, 30, 99, 100, 101, 200, 999, 1000, 1001]
+
+
+def id_values(rng, n, numeric_ids):
+    """n distinct ID strings: f<i>, or numbers (a falling arithmetic sequence, or a sample of CROSSING, or a
+    run of consecutive numbers that passes a power of ten in rising or falling order)."""
+    if not numeric_ids:
+        return ["f%d" % i for i in range(n)]
+    r = rng.random()
+    if r < 0.35:
+        return [str(100 - 7 * i) for i in range(n)]
+    if r < 0.7:
+        return [str(v) for v in rng.sample(CROSSING, n)]
+    first = rng.choice([10, 100, 1000]) - rng.randrange(1, n + 1)
+    seq = [str(first + i) for i in range(n)]
+    return seq if rng.random() < 0.5 else seq[::-1]
+
+
+def list_attrs(rng, ident, with_id=None):
     attrs = []
     with_id = rng.random() < 0.8 if with_id is None else with_id
     if with_id:
-        attrs.append(["ID", [str(100 - 7 * i) if numeric_ids else "f%d" % i]])
+        attrs.append(["ID", [ident]])
     if rng.random() < 0.6:
         attrs.append(["Parent", values(rng, "word", rng.choice([1, 1, 2]))])
     if rng.random() < 0.6:
@@ -83,7 +102,7 @@ def feature_list(rng, unique_ids=False):
     """1..8 features, start-ordered inside each block of one seqid."""
     n = rng.choice([1, 2, 2, 3, 3, 4, 5, 6, 7, 8])
     offset = rng.choice([0, 0, 0, 131060, 999990, 2 ** 20 - 4])
-    numeric_ids = rng.random() < 0.2
+    idents = id_values(rng, n, rng.random() < 0.25)
     one_strand = rng.random() < 0.35
     strand0 = rng.choice(STRANDS)
     one_type = rng.random() < 0.5
@@ -109,13 +128,74 @@ def feature_list(rng, unique_ids=False):
         feats.append({
             "seqid": seqid, "featuretype": type0 if one_type else rng.choice(TYPES), "start": ps, "end": pe,
             "strand": strand0 if one_strand else rng.choice(STRANDS),
-            "attrs": list_attrs(rng, i, numeric_ids, with_id=True if unique_ids else None),
+            "attrs": list_attrs(rng, idents[i], with_id=True if unique_ids else None),
         })
     if not unique_ids and feats and rng.random() < 0.05:
         # a Feature object may carry several ID values
         for k, v in feats[0]["attrs"]:
             if k == "ID":
                 v.append("zz")
+    return feats
+
+
+MESSY_WORDS = ["basic", "CCDS", "appris", "t1", "t2", "t10", "g1", "Zeta", "alpha", "x9", "x10"]
+MESSY_NUMBERS = ["1", "2", "3", "9", "10", "11", "20", "99", "100", "3.5", "-1"]
+
+
+def messy_values(rng, numeric):
+    """2..4 values that are not in sorted order and / or contain a value more than once."""
+    base = rng.sample(MESSY_NUMBERS if numeric else MESSY_WORDS, rng.choice([2, 2, 3]))
+    vals = list(base)
+    r = rng.random()
+    if r < 0.65:
+        vals.insert(rng.randrange(len(vals) + 1), rng.choice(base))       # a repeated value
+    if r > 0.35:
+        vals.sort(reverse=rng.random() < 0.7, key=(lambda v: float(v)) if numeric and rng.random() < 0.5 else None)
+        if rng.random() < 0.3:
+            rng.shuffle(vals)
+    return vals
+
+
+def messy_attrs(rng, ident=None):
+    """An attribute set with 1..3 multi-valued keys whose values are unsorted and / or repeated."""
+    attrs = []
+    if ident is not None:
+        attrs.append(["ID", ident])
+    keys = rng.sample(["tag", "Parent", "rank", "exon_number", "note"], rng.choice([1, 2, 2, 3]))
+    for k in keys:
+        attrs.append([k, messy_values(rng, numeric=k in ("rank", "exon_number"))])
+    if rng.random() < 0.4:
+        attrs.append(["k%d" % rng.randrange(3), values(rng, "word", 1)])
+    rng.shuffle(attrs)
+    return attrs
+
+
+def equal_attrs_list(rng, with_ids):
+    """2..6 start-ordered features on one seqid (mostly with gaps) in which consecutive neighbours carry EXACTLY
+    equal attribute dictionaries (same keys, same value lists in the same order)."""
+    n = rng.choice([2, 2, 3, 3, 4, 5, 6])
+    offset = rng.choice([0, 0, 0, 131060])
+    seqid = rng.choice(SEQIDS)
+    one_strand = rng.random() < 0.5
+    strand0 = rng.choice(STRANDS)
+    type0 = rng.choice(TYPES)
+    ps = offset + rng.randrange(1, 20)
+    pe = ps + rng.choice([0, 1, 3, 8, 30])
+    feats = []
+    attrs = None
+    for i in range(n):
+        if i:
+            rels = ["gap1", "gapN", "gapN"] if i == 1 else ["gap1", "gapN", "gapN", "gapN", "touching", "overlap", "nested"]
+            _, ps, pe = next_interval(rng, ps, pe, relations=rels)
+        if attrs is None or (i > 1 and rng.random() < 0.25):
+            ident = None
+            if with_ids:
+                r = rng.random()
+                ident = None if r < 0.4 else ["s%d" % i] if r < 0.85 else rng.choice([["b", "a"], ["10", "9"], ["a", "b", "a"]])
+            attrs = messy_attrs(rng, ident)
+        feats.append({"seqid": seqid, "featuretype": type0 if rng.random() < 0.7 else rng.choice(TYPES), "start": ps, "end": pe,
+                      "strand": strand0 if one_strand else rng.choice(STRANDS),
+                      "attrs": [[k, list(v)] for k, v in attrs]})
     return feats
 
 
@@ -146,11 +226,43 @@ def exon_intervals(rng, n, offset):
     return out
 
 
+def nested_exon_intervals(rng, n, offset):
+    """A long first exon and n-1 later exons with distinct, increasing starts that begin strictly inside it; they are
+    separated from each other by gaps, adjacency or overlap and may (towards the end) reach beyond the long one."""
+    ps = offset + rng.randrange(1, 30)
+    out = [(ps, ps + rng.choice([12, 25, 40, 80]))]
+    s = ps + rng.randrange(1, 5)
+    while len(out) < n:
+        e = s + rng.choice([0, 0, 1, 3, 6, 12])
+        out.append((s, e))
+        if rng.random() < 0.15:                      # a second level of nesting / overlap with the previous one
+            s = s + 1
+        else:
+            s = e + rng.choice([1, 2, 2, 3, 3, 5, 9])
+    return out
+
+
+def exon_strand(rng, mode, tstrand):
+    if mode == "mixed":
+        return rng.choice(STRANDS)
+    if mode == "other":       # every exon on the opposite strand (a stranded exon under an unstranded transcript)
+        return {"+": "-", "-": "+"}.get(tstrand) or rng.choice(["+", "-"])
+    if mode == "dot":         # unstranded exons under a stranded transcript
+        return "." if tstrand != "." else rng.choice(["+", "-"])
+    return tstrand
+
+
 def gene_model(rng, fmt):
     """Records of 1..3 genes x 1..3 transcripts x 1..6 exons (+ CDS), in file order."""
     recs = []
     eid = 0
-    numeric_ids = rng.random() < 0.25
+    numeric_ids = rng.random() < 0.3
+    # numeric IDs: falling by 3 from 1000 (equal digit counts), or drawn without repetition from ranges around the
+    # powers of ten, so that neighbouring exons often have IDs whose numeric and text orders disagree (9/10, 99/100, 20/100)
+    id_pool = None
+    if numeric_ids and rng.random() < 0.65:
+        id_pool = list(range(1, 31)) + list(range(95, 131)) + list(range(195, 211)) + list(range(990, 1011))
+        rng.shuffle(id_pool)
     for g in range(rng.choice([1, 1, 2, 3])):
         gid = "g%d" % g
         seqid = rng.choice(SEQIDS)
@@ -167,14 +279,22 @@ def gene_model(rng, fmt):
                 recs.append({"seqid": seqid, "featuretype": ttype, "start": offset + 1, "end": offset + 2000,
                              "strand": tstrand, "attrs": [["ID", [tid]], ["Parent", [gid]]]})
             nex = rng.choice([1, 2, 2, 3, 3, 4, 5, 6])
-            mixed = fmt == "gff3" and rng.random() < 0.15
+            smode = rng.choice(["mixed", "other", "dot"]) if fmt == "gff3" and rng.random() < 0.35 else "same"
+            nested = rng.random() < 0.25
+            if nested:
+                nex = max(nex, 3)
             block = []
-            for btype, ivs in (("exon", exon_intervals(rng, nex, offset)),
+            for btype, ivs in (("exon", nested_exon_intervals(rng, nex, offset) if nested else exon_intervals(rng, nex, offset)),
                                ("CDS", exon_intervals(rng, rng.choice([0, 0, 1, 2, 3]), offset) if rng.random() < 0.6 else [])):
                 for j, (s, e) in enumerate(ivs):
                     eid += 1
-                    strand = rng.choice(STRANDS) if mixed else tstrand
-                    ident = str(1000 - 3 * eid) if numeric_ids else "%s%d" % (btype[0], eid)
+                    strand = exon_strand(rng, smode, tstrand)
+                    if not numeric_ids:
+                        ident = "%s%d" % (btype[0], eid)
+                    elif id_pool is None:
+                        ident = str(1000 - 3 * eid)
+                    else:
+                        ident = str(id_pool[eid - 1])
                     if fmt == "gff3":
                         attrs = [["ID", [ident]], ["Parent", [tid]]]
                     else:
